@@ -25,7 +25,7 @@ CHECKS = {
     ),
     "C02": (
         "exploration",
-        "property-based testing (Hypothesis): generated programs x destination fault masks; history invariants over the healthy observer's message list (uniqueness, contiguity 1..n, start/end placement, causal order)",
+        "property-based testing (Hypothesis): generated programs x destination fault masks; history invariants over the healthy observer's message list (uniqueness, contiguity 1..n, start/end placement, causal order); schedule exploration (source-line and bytecode granularity) of threads logging inside one shared action",
         "Generated programs, alone and next to destinations that raise on generated subsets of calls; the healthy observer's list must satisfy the stated uniqueness/contiguity/order invariants, with failure reports as ordinary tree members. Concurrent schedules are covered through the C05 runs. Holds on everything generated.",
         "Trusts pbt/reftree.py and pbt/invariants.py. One genuine defect (F7) is an open known finding, excluded by construction and reproduced on every run.",
         "DESIGN.md section 3 C02",
